@@ -6,6 +6,7 @@ Objects are natural-number ids into OBJ (some ids have ==-equal aliases: 1 / 1.0
 """
 import ast
 import copy
+import gc
 import itertools
 import operator
 import os
@@ -124,6 +125,88 @@ def one_shot(pairs):
     return iter(list(pairs))
 
 
+KEEP_MODES = ('i', 'f', 'ii', 'fi', 'none')
+CLONE_KINDS = ('ccopy', 'deepcopy', 'pickle0', 'pickle2', 'pickle5')
+
+
+class Held(object):
+    """What the caller still holds of ONE instance: the variable `x` (the object the constructor returned), the
+    variable `inv = x.inv` taken when the instance was created, or only one of them - the other half is then reached
+    the only way a caller can, through `.inv` of the one that is held.  `last` = the dump made when the caller let go
+    of both (nothing can reach the instance any more: it is shown as it was)."""
+    __slots__ = ('f', 'i', 'last')
+
+    def __init__(self, x):
+        self.f, self.i, self.last = x, x.inv, None
+
+    def dead(self):
+        return self.f is None and self.i is None
+
+    def side(self, s):
+        o = self.f if s == 'f' else self.i
+        if o is not None:
+            return o
+        o = self.i if s == 'f' else self.f
+        if o is None:
+            raise RuntimeError('harness: instance no longer held')
+        o = o.inv
+        if o is None:
+            # what the caller's next statement (`o.add(...)`, `o.items()`) would run into
+            raise AttributeError("'NoneType' object: .inv of a held half is None")
+        return o
+
+    def keep(self, mode):
+        """rebind the caller's variables; the references let go of are gone when this returns"""
+        if mode == 'i':
+            self.i = self.side('i')
+            self.f = None
+        elif mode == 'f':
+            self.f = self.side('f')
+            self.i = None
+        elif mode == 'ii':
+            z = self.side('f').inv.inv
+            if z is None:
+                raise AttributeError("'NoneType' object: .inv.inv of a held half is None")
+            self.f = z
+            self.i = None
+        elif mode == 'fi':
+            f, i = self.side('f'), self.side('i')
+            self.f, self.i = f, i
+        elif mode == 'none':
+            self.f = self.i = None
+        else:
+            raise ValueError(mode)
+
+
+_GC = {'n': 0}
+
+
+def life_case_begins():
+    """A case that lets go of references runs full collections (gc.collect() in `collect_now`).  The checking process
+    holds hundreds of thousands of long-lived objects; they are moved out of the collector's sight first (gc.freeze,
+    O(1)), so that each of those collections only looks at what the case itself created.  Young garbage is collected
+    before the freeze, and every 200 such cases everything is thawed and collected once, so nothing piles up."""
+    if _GC['n'] % 200 == 0:
+        gc.unfreeze()
+        gc.collect()
+    else:
+        gc.collect(1)
+    gc.freeze()
+    _GC['n'] += 1
+
+
+def collect_now():
+    gc.collect()
+
+
+def clone_of(obj, how):
+    if how == 'ccopy':
+        return copy.copy(obj)
+    if how == 'deepcopy':
+        return copy.deepcopy(obj)
+    return pickle.loads(pickle.dumps(obj, int(how[6:])))
+
+
 class C17(Property):
     PID = 'C17'
     QUICK_BUDGET_S = 40
@@ -147,7 +230,13 @@ class C17(Property):
             'keeps, takes items off (next) and passes again - to update, |=, the constructors, several instances - '
             'in a fixed family (0/1/2/all items taken first, every first and second consumer) and in a third of the '
             'random histories; every ManyToMany dump carries the readers len / keys / get / in / m[k] of both sides '
-            'on every id the history mentions plus two it does not. Non-trivial = some command evicted or merged an '
+            'on every id the history mentions plus two it does not. Round 5, FIRST in the stream: object lifetime - '
+            'after every constructor form, copy() and copy.copy / deepcopy / pickle clones of either half (source dropped '
+            'or kept) the caller keeps only `.inv`, only the forward object, only what `x.inv.inv` gives, both again or '
+            'nothing of an instance (the other references are let go of, then gc.collect()), mutates through what is left '
+            'through either side - the half that is not held is reached through `.inv` of the one that is - and every '
+            'instance is read on both sides after every command; the same commands appear in a fifth of the random '
+            'histories. Clone attempts themselves are not judged (not operations of the statement). Non-trivial = some command evicted or merged an '
             'existing pair / read from another instance / raised; distinct = distinct history.')
     ASSUMPTIONS = ['keys and values are hashable, == is an equivalence consistent with hash, no NaN',
                    'update/constructor arguments are dicts, lists of pairs, one-shot iterators of pairs, keyword '
@@ -155,6 +244,10 @@ class C17(Property):
                    'update() with a dict / keyword dict that carries one value under two keys: which key keeps the value '
                    'is left open (any order of walking that dict is accepted by the oracle); the model walks it in '
                    'insertion order, like the code',
+                   'copy.copy / copy.deepcopy / pickle of a OneToOne or ManyToMany half: whether the attempt raises and what it '
+                   'returns is not demanded; a result that is a separate well-formed instance with the same pairs is from '
+                   'then on an instance like any other. Only `copy` is in the statement (OneToOne): copy.copy(x) must leave '
+                   'every existing instance what it was (known finding C17-oto-copy-module on the unfixed tree)',
                    'FrozenDict: "mutating dict operation" = __setitem__ __delitem__ __ior__ update setdefault pop '
                    'popitem clear (re-running __init__ is not an operation of the statement)']
     CORRESPONDENCE_NAME = ('C17.Driver (OneToOne / ManyToMany by value AND heap-level with set-object identities / '
@@ -287,11 +380,51 @@ class C17(Property):
                     out.append(n)
         return out
 
+    @staticmethod
+    def _keeps_alive(a, b, depth=4):
+        """does object `a` refer to object `b` through references the garbage collector follows (strong ones: a
+        `weakref.ref` / proxy does not show its referent), in at most `depth` steps and without passing through a type,
+        module, function or frame (through which everything is reachable)?"""
+        import types
+        skip = (type, types.ModuleType, types.FunctionType, types.BuiltinFunctionType, types.MethodType, types.FrameType,
+                types.CodeType)
+        seen, level = {id(a)}, [a]
+        for _ in range(depth):
+            nxt = []
+            for o in level:
+                for r in gc.get_referents(o):
+                    if r is b:
+                        return True
+                    if id(r) in seen or isinstance(r, skip):
+                        continue
+                    seen.add(id(r))
+                    nxt.append(r)
+            level = nxt
+        return False
+
+    def _inv_refs(self, dictutils):
+        """per paired class: (x refers strongly to x.inv, x.inv refers strongly to x), read off fresh instances -
+        an empty one and a filled one; `false` as soon as one of them says so or the probe fails"""
+        out = []
+        for name in ('OneToOne', 'ManyToMany'):
+            fw = bk = True
+            try:
+                cls = getattr(dictutils, name)
+                for x in (cls(), cls([(1, 2), (3, 4)])):
+                    y = x.inv
+                    fw = fw and y is not None and self._keeps_alive(x, y)
+                    bk = bk and y is not None and self._keeps_alive(y, x)
+            except Exception:
+                fw = bk = False
+            out.append((name, bool(fw), bool(bk)))
+        return out
+
     def regen(self):
         import inspect
         from bv.common import ensure_repo_on_path
         import types
         blocked, raises, oto_own, m2m_foreign = [], '?', [], ['?']
+        inv_refs = [('OneToOne', False, False), ('ManyToMany', False, False)]
         try:
             ensure_repo_on_path()
             from boltons import dictutils
@@ -311,6 +444,7 @@ class C17(Property):
             if blocked:
                 raises = kinds.pop() if len(kinds) == 1 else '?'
             oto_own = self._own_callables(OTO, dict)
+            inv_refs = self._inv_refs(dictutils)
         except Exception as e:      # the module does not import: empty tables, the proof side does not check
             self.stats['regen_error'] = repr(e)[:200]
         # the running interpreter's dict: every method it has must be classified by the model (mutator or not)
@@ -330,11 +464,22 @@ class C17(Property):
                 '    builtin container) -/\n'
                 'def m2mForeignMutators : List String :=\n  [%s]\n\n'
                 'end C17.Generated\n') % (q(blocked), raises, q(oto_own), q(dict_methods), q(m2m_foreign))
-        return {'C17_Frozen.lean': text}
+        lb = lambda b: 'true' if b else 'false'
+        refs = ('/- GENERATED by harness/bv/props/c17.py (regen) from boltons/dictutils.py - do not edit.\n'
+                '   Per paired class, read off a freshly constructed instance `x` (evaluated, not pattern-matched): does `x`\n'
+                '   refer STRONGLY to `x.inv` (is `x.inv` among what the garbage collector can reach from `x` without passing\n'
+                '   through a type / module / function), and does `x.inv` refer strongly to `x`?  A `weakref.ref` / proxy\n'
+                '   stored on either side shows as `false`. -/\n'
+                'namespace C17.Generated\n\n'
+                'def invRefs : List (String × Bool × Bool) :=\n  [%s]\n\n'
+                'end C17.Generated\n') % ', '.join('("%s", %s, %s)' % (n, lb(f), lb(b)) for n, f, b in inv_refs)
+        return {'C17_Frozen.lean': text, 'C17_Refs.lean': refs}
 
     # ------------------------------------------------------------------ generation
     def cases(self, budget_s):
         rng = self.rng
+        for c in self.lifetime():
+            yield c
         for c in self.adversarial():
             yield c
         for c in self.round2(rng, 400 if self.thorough else 60):
@@ -354,6 +499,8 @@ class C17(Property):
 
     def deep_cases(self, budget_s):
         rng = self.rng
+        for c in self.lifetime():
+            yield c
         for c in self.adversarial():
             yield c
         for c in self.round2(rng, 200):
@@ -453,6 +600,76 @@ class C17(Property):
                 ['mut', 'ior', [[a, ['h', a]]]], ['mut', 'ior', []], ['mut', 'update', [[b, ['h', a]]]], ['mut', 'update', []],
                 ['mut', 'setdefault', a, ['h', b]], ['mut', 'setdefault', 5, ['u', 1]], ['mut', 'pop', a], ['mut', 'pop', 5],
                 ['mut', 'popitem'], ['mut', 'clear']]
+
+    # -- round 5: object lifetime.  Only a DERIVED object is kept alive: `idx = ManyToMany(pairs).inv`, `x.inv.inv`,
+    # a copy / deepcopy / pickle round trip of `.inv` whose source is dropped; then mutate through what is left and
+    # read both sides (the other half through `.inv` of the half that is held)
+    def lifetime(self):
+        P = [[1, 3], [2, 3], [2, 6]]
+        tr = lambda ps: [[b, a] for a, b in ps]
+
+        def m2m_muts(r, s):
+            # the same abstract mutations written for either side (through `i` keys and values change places)
+            f = (lambda k, v: [k, v]) if s == 'f' else (lambda k, v: [v, k])
+            return [['add', r, s] + f(4, 6), ['add', r, s] + f(1, 6), ['rem', r, s] + f(2, 3), ['rep', r, s, 2 if s == 'f' else 3, 5],
+                    ['upd', r, s, 'iter', [f(5, 4)]], ['set', r, s, 1 if s == 'f' else 3, [5], 'list'],
+                    ['del', r, s, 2 if s == 'f' else 3]]
+
+        def oto_muts(r, s):
+            f = (lambda k, v: [k, v]) if s == 'f' else (lambda k, v: [v, k])
+            return [['set', r, s] + f(4, 5), ['set', r, s] + f(1, 6), ['del', r, s, 1 if s == 'f' else 3],
+                    ['upd', r, s, 'iter', [f(5, 4)], []], ['ior', r, s, 'dict', [f(2, 3)]], ['sd', r, s] + f(5, 3),
+                    ['pop', r, s, 2 if s == 'f' else 6, None], ['popitem', r, s], ['clear', r, s]]
+
+        def tails(t, r, full):
+            muts = m2m_muts if t == 'm2m' else oto_muts
+            for mode in ('i', 'f', 'ii'):
+                for s in SIDES:
+                    ms = muts(r, s)
+                    for m in (ms if full else ms[:2]):
+                        o = 'i' if s == 'f' else 'f'
+                        yield [['keep', r, mode], m, muts(r, o)[0], ['keep', r, 'fi'], muts(r, s)[1], ['keep', r, 'f' if mode == 'i' else 'i'],
+                               muts(r, o)[2]]
+
+        for t in ('m2m', 'oto'):
+            kw = [] if t == 'm2m' else [[]]
+            Q = P if t == 'm2m' else [[1, 3], [2, 6], [4, 1]]
+            builders = [([['new', 'list', Q] + kw], 0, True),
+                        ([['new', 'list', tr(Q)] + kw, ['new', 'reg', [0, 'i']] + kw, ['keep', 0, 'none']], 1, True),
+                        ([['new', 'iter', Q] + kw], 0, False),
+                        ([['new', 'dict', Q] + kw], 0, False),
+                        ([['new', 'none', []] + kw, ['upd', 0, 'i', 'list', tr(Q)] + kw], 0, False)]
+            if t == 'oto':
+                builders += [([['uniq', 'list', Q, [[1, 0]]]], 0, False),
+                             ([['new', 'none', [], [[1, 3], [4, 6]]]], 0, False),
+                             ([['new', 'list', tr(Q), []], ['copy', 0, 'i'], ['keep', 0, 'none']], 1, True),
+                             ([['new', 'list', Q, []], ['copy', 0, 'f'], ['keep', 1, 'i'], ['keep', 0, 'i']], 1, False)]
+            for how in CLONE_KINDS:
+                for s in SIDES:
+                    # the clone of a half, the source dropped / the source kept and mutated as well
+                    builders.append(([['new', 'list', Q if s == 'f' else tr(Q)] + kw, ['clone', 0, s, how], ['keep', 0, 'none']], 1, False))
+                    builders.append(([['new', 'list', Q] + kw, ['clone', 0, s, how], ['keep', 0, 'i']], 1,
+                                     how in ('deepcopy', 'pickle2')))
+            for pre, r, full in builders:
+                for tail in tails(t, r, full):
+                    yield {'t': t, 'ops': [list(o) for o in pre] + tail}
+            # nothing but reference juggling on one instance, and two instances whose halves are kept crosswise
+            yield {'t': t, 'ops': [['new', 'list', Q] + kw] + [['keep', 0, m] for m in ('i', 'ii', 'i', 'fi', 'f', 'ii', 'i', 'f')]
+                   + [(m2m_muts if t == 'm2m' else oto_muts)(0, 'i')[0]]}
+            for m0 in ('i', 'f', 'ii'):
+                for m1 in ('i', 'f', 'ii'):
+                    mu = m2m_muts if t == 'm2m' else oto_muts
+                    yield {'t': t, 'ops': [['new', 'list', Q] + kw, ['new', 'reg', [0, 'i']] + kw, ['keep', 0, m0], ['keep', 1, m1],
+                                           mu(0, 'f')[0], mu(1, 'f')[1], ['upd', 0, 'i', 'reg', [1, 'f']] + kw, mu(1, 'i')[2],
+                                           ['keep', 1, 'none'], mu(0, 'i')[1], ['keep', 0, 'fi'], mu(0, 'f')[2]]}
+
+    def _lifeop(self, rng, nregs, clone=True):
+        """now and then in a random history: the caller lets go of one of its two references / takes them again /
+        clones a half"""
+        r = rng.randrange(nregs)
+        if clone and rng.random() < 0.3:
+            return ['clone', r, rng.choice(SIDES), rng.choice(CLONE_KINDS)]
+        return ['keep', r, rng.choice(['i', 'f', 'ii', 'fi', 'i', 'f'])]
 
     # -- adversarial
     def adversarial(self):
@@ -702,10 +919,16 @@ class C17(Property):
         nregs = 1
         nits = 0          # one-shot iterators the caller holds on to (created, partly consumed, passed, passed again)
         use_its = rng.random() < 0.35
+        use_life = rng.random() < 0.2
         for _ in range(nops):
             r, s = rng.randrange(nregs), rng.choice(SIDES)
             x = rng.random()
             k, v = rng.choice(ids), rng.choice(ids)
+            if use_life and rng.random() < 0.12:
+                lo = self._lifeop(rng, nregs, nregs < 4)
+                nregs += lo[0] == 'clone'
+                ops.append(lo)
+                continue
             if use_its:
                 y = rng.random()
                 if y < 0.08 and nits < 4:
@@ -778,10 +1001,16 @@ class C17(Property):
         nregs = 1
         nits = 0
         use_its = rng.random() < 0.3
+        use_life = rng.random() < 0.2
         for _ in range(nops):
             r, s = rng.randrange(nregs), rng.choice(SIDES)
             x = rng.random()
             k, v = rng.choice(ids), rng.choice(ids)
+            if use_life and rng.random() < 0.12:
+                lo = self._lifeop(rng, nregs, nregs < 4)
+                nregs += lo[0] == 'clone'
+                ops.append(lo)
+                continue
             if use_its:
                 y = rng.random()
                 if y < 0.08 and nits < 4:
@@ -969,6 +1198,11 @@ class C17(Property):
                     toks.append('NX/%d' % op[1])
                 elif o == 'copy':
                     toks.append('C/%d/%s' % (op[1], op[2]))
+                elif o == 'keep':
+                    toks.append('K/%d/%s' % (op[1], op[2]))
+                elif o == 'clone':
+                    # in the model a clone is a new instance built from that side (the register gets one either way)
+                    toks.append('N/r%d.%s/-' % (op[1], op[2]))
                 elif o == 'set':
                     toks.append('S/%d/%s/%d/%d' % tuple(op[1:]))
                 elif o == 'del':
@@ -1002,6 +1236,10 @@ class C17(Property):
                     toks.append('MI/' + self._ps(op[1]))
                 elif o == 'next':
                     toks.append('NX/%d' % op[1])
+                elif o == 'keep':
+                    toks.append('K/%d/%s' % (op[1], op[2]))
+                elif o == 'clone':
+                    toks.append('N/r%d.%s' % (op[1], op[2]))
                 elif o == 'add':
                     toks.append('A/%d/%s/%d/%d' % tuple(op[1:]))
                 elif o == 'rem':
@@ -1059,6 +1297,8 @@ class C17(Property):
 
     def impl(self, case):
         try:
+            if case['t'] != 'fd' and any(op[0] == 'keep' for op in case['ops']):
+                life_case_begins()
             with time_limit(10):
                 obs = getattr(self, 'impl_' + case['t'])(case)
         except CaseTimeout:
@@ -1070,24 +1310,67 @@ class C17(Property):
 
     @staticmethod
     def _side(x, s):
-        # x = [instance, the `.inv` object it had when it was created]: calls "through .inv" go through the
-        # reference taken then, as a caller holding `inv = x.inv` would
-        return x[0] if s == 'f' else x[1]
+        # x = Held(instance): calls "through .inv" go through the reference taken when the instance was created, as
+        # a caller holding `inv = x.inv` would - unless the caller has let go of that variable (a `keep` command):
+        # then through `.inv` of the half that is still held
+        return x.side(s)
+
+    @staticmethod
+    def _wellformed(c, src, pairs):
+        """is `c` (what copy / deepcopy / pickle made of `src`) a separate instance of the same class holding the
+        same pairs, with an inverse of its own?"""
+        try:
+            ci = c.inv
+            ps = lambda z: sorted(((oid(k), oid(v)) for k, v in pairs(z)), key=str)      # ==-aliases read alike
+            return bool(type(c) is type(src) and c is not src and ci is not src.inv and ci is not src and ci.inv is c
+                        and type(ci) is type(c) and ps(c) == ps(src)
+                        and ps(ci) == sorted(((v, k) for k, v in ps(src)), key=str))
+        except Exception:
+            return False
+
+    def _clone(self, cls, srcobj, how, rec, pairs):
+        """copy.copy / copy.deepcopy / a pickle round trip of one half.  Not an operation of the statement: whether it
+        raises, and what it returns, is not judged.  A result that IS a separate well-formed instance goes into the
+        new register (and is from then on an instance like any other); otherwise the register gets `cls(src)`."""
+        c = None
+        try:
+            c = clone_of(srcobj, how)
+            rec['clone'] = 'ok' if self._wellformed(c, srcobj, pairs) else 'illformed'
+        except CaseTimeout:
+            raise
+        except Exception as e:
+            rec['clone'] = 'X' + exc_name(e)
+        st = self.stats.setdefault('clone', {})
+        key = '%s %s %s' % (cls.__name__, how, rec['clone'])
+        st[key] = st.get(key, 0) + 1
+        return c if rec['clone'] == 'ok' else cls(srcobj)
 
     def impl_oto(self, case):
         from boltons.dictutils import OneToOne
         regs, out = [], []
         its = []      # one-shot iterators the "caller" holds on to
-
-        def held(x):
-            return [x, x.inv]
+        held = Held
         for n, op in enumerate(case['ops']):
             o, rec = op[0], {'ret': '-'}
+            x = new = src = r = reg = None       # no reference to an instance survives from the previous command
             try:
                 if o == 'mkiter':
                     its.append(one_shot(mkpairs(op[1], n)))
                 elif o == 'next':
                     next(its[op[1]], None)
+                elif o == 'keep':
+                    reg = regs[op[1]]
+                    if op[2] == 'none' and not reg.dead():
+                        reg.last = self._oto_dump1(reg)
+                    reg.keep(op[2])
+                    reg = None
+                    collect_now()
+                    rec['ret'] = 'G1'
+                elif o == 'clone':
+                    try:
+                        new = self._clone(OneToOne, self._side(regs[op[1]], op[2]), op[3], rec, lambda z: z.items())
+                    finally:
+                        regs.append(held(new if new is not None else OneToOne()))
                 elif o in ('new', 'uniq'):
                     ctor = OneToOne if o == 'new' else OneToOne.unique
                     kw = {mk(k): mk(v, n) for k, v in op[3]}
@@ -1133,9 +1416,9 @@ class C17(Property):
                 raise
             except Exception as e:
                 rec['exc'] = exc_name(e)
+            x = new = src = r = reg = None
             try:
-                rec['dump'] = [[[[oid(k), oid(v)] for k, v in x.items()], [[oid(k), oid(v)] for k, v in xi.items()],
-                                1 if (x.inv.inv is x and x.inv is xi and xi.inv is x) else 0, len(x), len(xi)] for x, xi in regs]
+                rec['dump'] = [z.last if z.dead() else self._oto_dump1(z) for z in regs]
             except CaseTimeout:
                 raise
             except Exception as e:
@@ -1143,6 +1426,17 @@ class C17(Property):
                 rec['dump'] = []
             out.append(rec)
         return out
+
+    @staticmethod
+    def _oto_dump1(reg):
+        x, xi = reg.side('f'), reg.side('i')
+        return [[[oid(k), oid(v)] for k, v in x.items()], [[oid(k), oid(v)] for k, v in xi.items()],
+                1 if (x.inv.inv is x and x.inv is xi and xi.inv is x) else 0, len(x), len(xi)]
+
+    def _m2m_dump1(self, reg, probe):
+        x, xi = reg.side('f'), reg.side('i')
+        return [self._m2m_dump(x, probe), self._m2m_dump(xi, probe),
+                1 if (x.inv.inv is x and x.inv is xi and xi.inv is x) else 0]
 
     @staticmethod
     def _m2m_item(x, k):
@@ -1178,17 +1472,29 @@ class C17(Property):
         from boltons.dictutils import ManyToMany
         regs, out = [], []
         probe = self._m2m_probe(case)
-
-        def held(x):
-            return [x, x.inv]
+        held = Held
         its = []      # one-shot iterators the "caller" holds on to
         for n, op in enumerate(case['ops']):
             o, rec = op[0], {'ret': '-'}
+            x = new = vals = reg = None       # no reference to an instance survives from the previous command
             try:
                 if o == 'mkiter':
                     its.append(one_shot(mkpairs(op[1], n)))
                 elif o == 'next':
                     next(its[op[1]], None)
+                elif o == 'keep':
+                    reg = regs[op[1]]
+                    if op[2] == 'none' and not reg.dead():
+                        reg.last = self._m2m_dump1(reg, probe)
+                    reg.keep(op[2])
+                    reg = None
+                    collect_now()
+                    rec['ret'] = 'G1'
+                elif o == 'clone':
+                    try:
+                        new = self._clone(ManyToMany, self._side(regs[op[1]], op[2]), op[3], rec, lambda z: z.iteritems())
+                    finally:
+                        regs.append(held(new if new is not None else ManyToMany()))
                 elif o == 'new':
                     new = None
                     try:
@@ -1222,9 +1528,9 @@ class C17(Property):
                 raise
             except Exception as e:
                 rec['exc'] = exc_name(e)
+            x = new = vals = reg = None
             try:
-                rec['dump'] = [[self._m2m_dump(x, probe), self._m2m_dump(xi, probe),
-                                1 if (x.inv.inv is x and x.inv is xi and xi.inv is x) else 0] for x, xi in regs]
+                rec['dump'] = [z.last if z.dead() else self._m2m_dump1(z, probe) for z in regs]
             except CaseTimeout:
                 raise
             except Exception as e:
@@ -1573,10 +1879,35 @@ class C17(Property):
                 left, iters[op[4]] = iters[op[4]], []
                 op = op[:3] + ['list', left] + op[5:]
                 self._nt = True
+            clone_how = None
+            if o == 'clone':
+                # copy.copy / deepcopy / pickle of a half: the attempt itself is not judged (it may raise); the
+                # register then holds an instance with the pairs of that side - and every OTHER instance, the
+                # source included, must be what it was
+                clone_how = op[3]
+                o, op = 'new', ['new', 'reg', [op[1], op[2]], []]
+                self._nt = True
+
+            def flt(f, i):
+                # an EXISTING instance is not what it was right after a clone attempt.  `copy` is among the operations
+                # the statement lists for OneToOne, and copy.copy(x) is that operation through the standard protocol:
+                # judged (own tag).  deepcopy / pickle are not operations of the statement: what they do to anything
+                # is not judged - the rest of the history is then not judged either (the correspondence still compares)
+                if clone_how is not None and i < len(refs) - 1:
+                    if clone_how != 'ccopy':
+                        return None
+                    return Failure('clone_damages_source', '%s of a half of instance %d (outcome: %s) changed an existing '
+                                   'instance: %s' % (clone_how, op[2][0], rec.get('clone'), f.what))
+                return f
             if o == 'mkiter':
                 iters.append([list(pr) for pr in op[1]])
             elif o == 'next':
                 iters[op[1]] = iters[op[1]][1:]
+            elif o == 'keep':
+                # which of its references the caller keeps is no mutation: every instance still holds what it held,
+                # read through whatever is left (the other half through `.inv`)
+                exp_ret = 'G1'
+                self._nt = True
             elif o in ('new', 'uniq'):
                 if op[1] == 'reg':
                     src = refs[op[2][0]]
@@ -1674,6 +2005,8 @@ class C17(Property):
                 refs[tgt] = {(b, a) for a, b in P} if inv else P
             if exp_exc is not None:
                 self._nt = True
+            if clone_how not in (None, 'ccopy') and ('exc' in rec or 'dumpexc' in rec):
+                return None     # a deepcopy / pickle attempt that leaves things unreadable: outside the statement
             # --- judge
             if 'exc' in rec and exp_exc is None:
                 return Failure('raises', '%r raised %s' % (op, rec['exc']))
@@ -1690,17 +2023,17 @@ class C17(Property):
             for i, (d, P) in enumerate(zip(rec['dump'], refs)):
                 fw, iv, invinv, lf, li = d
                 sf, si = {tuple(p) for p in fw}, {tuple(p) for p in iv}
-                who = 'instance %d after %r' % (i, op)
+                who = 'instance %d after %r' % (i, case['ops'][n] if clone_how else op)
                 if len({k for k, _ in fw}) != len(fw) or len({k for k, _ in iv}) != len(iv) or lf != len(fw) or li != len(iv):
-                    return Failure('views', '%s: items()/len() inconsistent: %r %r' % (who, fw, iv))
+                    return flt(Failure('views', '%s: items()/len() inconsistent: %r %r' % (who, fw, iv)), i)
                 if si != {(b, a) for a, b in sf} or len(fw) != len(iv):
-                    return Failure('not_inverse', '%s: forward %r and inverse %r are not exact inverses' % (who, fw, iv))
+                    return flt(Failure('not_inverse', '%s: forward %r and inverse %r are not exact inverses' % (who, fw, iv)), i)
                 if not invinv:
-                    return Failure('inv_inv', '%s: x.inv.inv is not x (or x.inv is no longer the object it was)' % who)
+                    return flt(Failure('inv_inv', '%s: x.inv.inv is not x (or x.inv is no longer the object it was)' % who), i)
                 if P is None:
                     dd = loose_ctor
                     if not (sf <= set(dd.items()) and {b for _, b in sf} == set(dd.values())):
-                        return Failure('ctor', '%s: constructed %r from %r' % (who, fw, dd))
+                        return flt(Failure('ctor', '%s: constructed %r from %r' % (who, fw, dd)), i)
                     refs[i] = P = sf
                 elif loose_upd is not None and i == tgt and 'exc' not in rec and sf != P:
                     # not what walking each dict in its own order gives: walking it in another order is as good
@@ -1710,9 +2043,9 @@ class C17(Property):
                         refs[i] = P = sf
                 if sf != P:
                     tag = 'effect' if i == tgt or tgt is None else 'isolation'
-                    return Failure(tag, '%s: holds %r, expected %r%s' % (
+                    return flt(Failure(tag, '%s: holds %r, expected %r%s' % (
                         who, sorted(sf, key=str), sorted(P, key=str),
-                        '' if tag == 'effect' else ' (changed by a mutation of another instance)'))
+                        '' if tag == 'effect' else ' (changed by a mutation of another instance)')), i)
         return None
 
     def oracle_m2m(self, case, obs):
@@ -1731,10 +2064,21 @@ class C17(Property):
                 left, iters[op[4]] = iters[op[4]], []
                 op = op[:3] + ['list', left]
                 self._nt = True
+            exp_ret = '-'
+            cloning = o == 'clone'
+            if o == 'clone':
+                # copy.copy / deepcopy / pickle are not operations of the statement (ManyToMany has no copy in its
+                # list): whether the attempt raises, what it returns and what it does to existing instances is not
+                # judged; when an existing instance is no longer what it was the rest of the history is not judged
+                # either (the correspondence still compares it with the model, in which a clone is ManyToMany(src))
+                o, op = 'new', ['new', 'reg', [op[1], op[2]]]
             if o == 'mkiter':
                 iters.append([list(pr) for pr in op[1]])
             elif o == 'next':
                 iters[op[1]] = iters[op[1]][1:]
+            elif o == 'keep':
+                exp_ret = 'G1'
+                self._nt = True
             elif o == 'new':
                 if op[1] == 'reg':
                     src = refs[op[2][0]]
@@ -1780,6 +2124,8 @@ class C17(Property):
                 refs[tgt] = {(b, a) for a, b in P} if inv else P
             if exp_exc is not None:
                 self._nt = True
+            if cloning and ('exc' in rec or 'dumpexc' in rec):
+                return None     # a clone attempt that leaves things unreadable: outside the statement
             if 'exc' in rec and exp_exc is None:
                 return Failure('raises', '%r raised %s' % (op, rec['exc']))
             if 'exc' in rec and rec['exc'] != exp_exc:
@@ -1788,33 +2134,37 @@ class C17(Property):
                 return Failure('noraise', '%r did not raise %s' % (op, exp_exc))
             if 'dumpexc' in rec:
                 return Failure('raises', 'reading the instances after %r raised %s' % (op, rec['dumpexc']))
+            if rec.get('ret', '-') != exp_ret:
+                return Failure('retval', '%r returned %r, expected %r' % (op, rec.get('ret'), exp_ret))
             if len(rec['dump']) != len(refs):
                 return Failure('missing', 'instances %d, expected %d' % (len(rec['dump']), len(refs)))
+            def flt(f, i):
+                return None if (cloning and i < len(refs) - 1) else f
             for i, (d, P) in enumerate(zip(rec['dump'], refs)):
-                who = 'instance %d after %r' % (i, op)
+                who = 'instance %d after %r' % (i, case['ops'][n] if cloning else op)
                 if not d[2]:
-                    return Failure('inv_inv', '%s: x.inv.inv is not x (or x.inv is no longer the object it was)' % who)
+                    return flt(Failure('inv_inv', '%s: x.inv.inv is not x (or x.inv is no longer the object it was)' % who), i)
                 sides = []
                 for name, v in (('forward', d[0]), ('inverse', d[1])):
                     pairs = {tuple(p) for p in v['pairs']}
                     keys = v['keys']
                     grp = {k: vs for k, vs in v['grp']}
                     if any(not vs for vs in grp.values()):
-                        return Failure('empty_entry', '%s: %s side has an empty entry: %r' % (who, name, v['grp']))
+                        return flt(Failure('empty_entry', '%s: %s side has an empty entry: %r' % (who, name, v['grp'])), i)
                     if len(pairs) != len(v['pairs']) or len(set(keys)) != len(keys) or v['len'] != len(keys) \
                             or v['iter'] != keys or pairs != {(k, x) for k, vs in v['grp'] for x in vs} \
                             or any(g != grp.get(j, []) for j, g in v['get']) \
                             or any(h != (1 if j in grp else 0) for j, h in v['has']):
-                        return Failure('views', '%s: %s side readers disagree with each other: %r' % (who, name, v))
+                        return flt(Failure('views', '%s: %s side readers disagree with each other: %r' % (who, name, v)), i)
                     sides.append(pairs)
                 if sides[1] != {(b, a) for a, b in sides[0]}:
-                    return Failure('not_transposed', '%s: forward pairs %r, inverse pairs %r' % (
-                        who, sorted(sides[0], key=str), sorted(sides[1], key=str)))
+                    return flt(Failure('not_transposed', '%s: forward pairs %r, inverse pairs %r' % (
+                        who, sorted(sides[0], key=str), sorted(sides[1], key=str))), i)
                 if sides[0] != P:
                     tag = 'effect' if i == tgt or tgt is None else 'isolation'
-                    return Failure(tag, '%s: holds %r, expected %r%s' % (
+                    return flt(Failure(tag, '%s: holds %r, expected %r%s' % (
                         who, sorted(sides[0], key=str), sorted(P, key=str),
-                        '' if tag == 'effect' else ' (changed by a mutation of another instance)'))
+                        '' if tag == 'effect' else ' (changed by a mutation of another instance)')), i)
         return None
 
     def oracle_fd(self, case, obs):
@@ -1939,6 +2289,13 @@ class C17(Property):
                 what, rec['hr'], rec['ht'], rec['hr2']))
         return None
 
+    # known finding (until the fix: commit of branch r5-c17-work is in the checked tree): copy.copy() of a OneToOne
+    # half replays the items into an object whose `.inv` is the SOURCE's inverse - the source loses a pair on one
+    # side, then RuntimeError.  Matched only on that call, that outcome, and a damaged existing instance
+    def finding_oto_copy_module_damages_source(self, case, failure):
+        return (case.get('t') == 'oto' and failure.tag == 'clone_damages_source'
+                and failure.what.startswith('ccopy of a half') and '(outcome: XRuntimeError)' in failure.what)
+
     def nontrivial(self, case, obs):
         return getattr(self, '_nt', False)
 
@@ -1946,7 +2303,7 @@ class C17(Property):
     def shrink(self, case):
         ops = case['ops']
         first = 0 if case['t'] == 'fd' else 1
-        nregs_ops = ('new', 'uniq', 'copy')
+        nregs_ops = ('new', 'uniq', 'copy', 'clone')
         for i in range(len(ops) - 1, first - 1, -1):
             if ops[i][0] == 'mkiter':
                 continue      # later commands name iterators by position
@@ -1976,7 +2333,7 @@ class C17(Property):
             return False
         if op[0] in ('new', 'uniq'):
             return op[1] == 'reg' and op[2][0] >= idx and op[2][0] == idx
-        if op[0] == 'copy':
+        if op[0] in ('copy', 'clone'):
             return op[1] == idx
         if op[1] == idx:
             return True
